@@ -44,6 +44,7 @@ class Bomb(SerializableType):
 class BLeaf(ASTNode):
     name: str
     num: int = 5
+    Zed: int = 1        # a key that sorts before the type tag "__type" (upper case < "_")
 
 
 @dataclass(frozen=True)
@@ -53,6 +54,7 @@ class BNode(ASTNode):
     num: int = 7
     kid: ASTNode | None = None
     items: tuple[ASTNode, ...] = ()
+    Alpha: str = "a"    # as Zed above
 '''
 
 
